@@ -107,6 +107,8 @@ def worldset_search(seed, feature, max_candidates=20000, need_lex_tie=False):
         if fn(M, sem, conds, atoms, v) or fn(M, sem, conds, atoms, f):
             other = gen.r_query(rnd, atoms)
             return gen.mk_case(atoms, conds, [(B, A), other], searched=feature, tried=tried)
+    if last is None:
+        return gen.mk_case(["a", "b"], [(fm.V("b"), fm.V("a"))], [(fm.V("b"), fm.V("a"))], searched="none", tried=tried)
     atoms, conds, q = last
     return gen.mk_case(atoms, conds, [q], searched="none", tried=tried)
 
@@ -129,7 +131,7 @@ def _three_layer_feature(M, v, f):
     return False
 
 
-def three_layer_search(seed, max_bases=400):
+def three_layer_search(seed, max_bases=1500):
     """bases with >= 3 layers and a query in the stratum above; conditionals are listed either
     'general rules first' or 'specific rules first' (the listing order is part of the case)"""
     rnd = gen.rng(seed)
@@ -163,5 +165,7 @@ def three_layer_search(seed, max_bases=400):
                 other = gen.r_query(rnd, atoms)
                 return gen.mk_case(atoms, [conds[j] for j in order], [(B, A), other],
                                    searched="three-layer-tie", tried=tried)
+    if last is None:
+        return gen.mk_case(["a", "b"], [(fm.V("b"), fm.V("a"))], [(fm.V("b"), fm.V("a"))], searched="none", tried=tried)
     atoms, conds, q = last
     return gen.mk_case(atoms, conds, [q], searched="none", tried=tried)
